@@ -110,17 +110,17 @@ def showKind : FileKind → String
 
 /-! ### ops -/
 
-def rootsRes (x : M Roots) : M Res := do
+def rootsRes (x : M Roots) : M DRes := do
   let r ← x
   return .str r.show
 
-def exceptRes (x : Except Err String) : M Res := fun m =>
+def exceptRes (x : Except Err String) : M DRes := fun m =>
   match x with
   | .ok s => (.ok (.str s), m)
   | .error e => (.error e, m)
 
 /-- the ops of this slice on an existing manager; `none` = not one of them -/
-def stepDump (op : String) (args : List String) : Option (M Res) :=
+def stepDump (op : String) (args : List String) : Option (M DRes) :=
   match op, args with
   | "pdump", [r] => some <|
     match parseRoots r with
